@@ -167,13 +167,19 @@ func (t *Tools) Run(argv []string, stdin string) kern.ToolResult {
 			Code      int    `json:"code"`
 			Message   string `json:"message"`
 		}
-		arr := []js{}
+		arr := []any{}
 		for _, is := range issues {
 			var n int
 			fmt.Sscanf(is.Code, "SC%d", &n)
 			if n >= 1000 && n < 2000 {
 				// SC1xxx: problems of the script as a whole, located at the very start of the input
 				is.Line, is.Col = 1, 1
+			}
+			if is.Code == "SC2998" {
+				// a sparse object (another tool version, a wrapper): legal JSON that leaves out the
+				// members column, endColumn and level - readers see their zero values
+				arr = append(arr, map[string]any{"file": "-", "line": is.Line, "endLine": is.Line, "code": n, "message": "marker issue " + is.Code + " checked as " + shellArg(argv) + "."})
+				continue
 			}
 			arr = append(arr, js{"-", is.Line, is.Line, is.Col, is.Col + 6, "warning", n, "marker issue " + is.Code + " checked as " + shellArg(argv) + "."})
 		}
